@@ -414,7 +414,7 @@ var xPatParts = map[string][3]string{
 }
 var xValues = []string{"", "a", "ab", "abc", "abcdef", "err", "web", "info", "[tag] rest of it", "[ t ] x", "<13>hello", "key: value", "svc_1:payload", "id=12345 tail",
 	"word another", "(p)", "msg (trailer)", "line #42", "héllo wörld", "日本語テキスト", "a\\nb\\tc\\\\d\\", "user foo.bar@domain.fi here", "x@y", "2019-08-15T15:50:46.866915+03:00",
-	"2019-08-15T15:50:46Z", "-", "k=v;rest", "abc=1", "path:/a:b", "end <x>", "v=1f", "  padded  ", "\x00\x01", "\xff\xfe"}
+	"2019-08-15T15:50:46Z", "-", "k=v;rest", "[ ] - blank label", "a= ", "msg ( )", "[\x01\t] x", "end = \x00\x01", "abc=1", "path:/a:b", "end <x>", "v=1f", "  padded  ", "\x00\x01", "\xff\xfe"}
 
 func xVal(rng *rand.Rand) string {
 	switch rng.Intn(8) {
